@@ -39,11 +39,14 @@ var checkSpecs = map[string]CheckSpec{
 		Explain: "failed preflight: 403 and no Access-Control-* header; successful preflight: every value of every Access-Control-* header is *, true, the configured max-age, `*,authorization` in its documented case, or byte-equal to a value the request supplied"},
 	"C01": {ID: "C01", Harnesses: []HarnessSpec{
 		{Pkg: "cors", Entry: "zzH_C01_api", Reach: []string{"allowed", "not-allowed"}},
+		{Pkg: "origins", Entry: "zzH_C01_tree1", Reach: []string{"contained", "not-contained"}, Secondary: true},
+		{Pkg: "origins", Entry: "zzH_C01_tree2", Reach: []string{"contained", "not-contained"}, Secondary: true},
+		{Pkg: "origins", Entry: "zzH_C01_tree3", Reach: []string{"contained", "not-contained"}, Secondary: true},
 	}, Bounds: map[string]string{
-		"quick":    "every ordered selection with repetition of 1-2 patterns from a pool of 6 and of 3 patterns from its first 4 (exact, *.sub, shared non-label suffix, *.b:*, fixed port, scheme that is a prefix), concrete patterns built by the real NewMiddleware; one Origin value of <=13 fully symbolic bytes",
-		"thorough": "pool of 16 (adds bare TLD, :*, trailing dot, deeper subdomain, IPv6, IPv4, longer scheme, second shared-suffix host, *.sub with port, port 65535), 3 patterns from its first 8; Origin <=16 symbolic bytes",
-	}, Outside: "more than 3 patterns; patterns outside the pool (hosts longer than the pool's, 253-byte hosts: see C13); origins longer than the bound; bracketed non-IP hosts (the request-side parser is documented as lenient; not judged)",
-		Explain: "ACAO present <=> some listed pattern denotes the symbolic origin, with the denotation written by hand from the documentation (zzDenotes); order- and multiplicity-independence follow because every ordered selection is explored against the same symmetric oracle"},
+		"quick":    "API: every ordered selection with repetition of 1-2 patterns from a pool of 6 (exact, *.sub, shared non-label suffix, *.b:*, fixed port, scheme that is a prefix), concrete patterns built by the real NewMiddleware; one Origin value of <=13 fully symbolic bytes. Tree level (Tree.Insert/Contains on origins.Pattern values as ParsePattern produces them; hosts over the alphabet {a,b,.}): tree1 = 1 pattern with a symbolic value of <=6 bytes (incl. `*.`), symbolic scheme in {z,zz}, symbolic port in {absent} u [1,65535] u {*}, origin host <=6 symbolic bytes, symbolic scheme and port; tree2 = 2 such patterns with values of <=5 bytes (hosts <=3), origin host <=4 bytes; tree3 = every ordered triple with repetition from a pool of 7 hosts (ab, bab, bb, a.b, b.b, *.b, *.ab: splits of a node that has a subtree, siblings under a common node, a wildcard ending on an inner node) x port absent/81 per pattern, one scheme, origin host <=4 symbolic bytes with symbolic port",
+		"thorough": "API: pool of 16 (adds bare TLD, :*, trailing dot, deeper subdomain, IPv6, IPv4, longer scheme, second shared-suffix host, *.sub with port, port 65535), 1-2 patterns from it and 3 patterns from its first 8; Origin <=16 symbolic bytes. tree2: origin host <=5 bytes; tree3: pool of 12 hosts, origin host <=5 bytes",
+	}, Outside: "more than 3 patterns; three patterns with hosts outside the pools; pattern hosts longer than 4 bytes at tree level (253-byte hosts: see C13); alphabets larger than {a,b,.} at tree level (the tree only compares bytes for equality and order); origins longer than the bound; bracketed non-IP hosts (the request-side parser is documented as lenient; not judged)",
+		Explain: "API: ACAO present <=> some listed pattern denotes the symbolic origin, with the denotation written by hand from the documentation (zzDenotes). Tree level: Tree.Contains(o) <=> exists i. denotes(p_i, o) with patterns whose scheme, host bytes, `*.` prefix and port are solver variables, so the shape of the radix tree is determined by the path condition; order- and multiplicity-independence follow because the patterns are inserted in the order drawn and the oracle is symmetric and idempotent"},
 	"C14": {ID: "C14", Harnesses: []HarnessSpec{
 		{Pkg: "cors", Entry: "zzH_C14_api", Reach: []string{"approved", "rejected"}},
 		{Pkg: "headers", Entry: "zzH_C14_unit", Reach: []string{"approved", "rejected"}, Secondary: true},
@@ -97,7 +100,9 @@ var checkSpecs = map[string]CheckSpec{
 		Explain: "S compares ParsePattern with a reference grammar written from the documentation, for all strings within the bound; rejections must be *UnacceptableOriginPatternError naming the input"},
 	"C15": {ID: "C15", Harnesses: []HarnessSpec{
 		{Pkg: "cors", Entry: "zzH_C15_api", Reach: []string{"twin"}},
-	}, Bounds: map[string]string{"quick": scenarioBoundsQuick + "; twin configurations: reversed lists / rotated with a duplicate / header names upper-cased and normalisable methods respelled / lower-cased plus safelisted methods and response-header names added / every element doubled / reversed+upper-cased (all six in the lists, PNA and dispatch scenarios; one or two per byte-level scenario)", "thorough": scenarioBoundsThorough + "; all six twins in every scenario"}, Outside: scenarioOutside + "; permutations other than reversal and rotation for lists longer than 3",
+		{Pkg: "origins", Entry: "zzH_C01_tree2", Reach: []string{"contained"}, Secondary: true, Tiers: "thorough"},
+		{Pkg: "origins", Entry: "zzH_C01_tree3", Reach: []string{"contained"}, Secondary: true, Tiers: "thorough"},
+	}, Bounds: map[string]string{"quick": scenarioBoundsQuick + "; twin configurations: reversed lists / rotated with a duplicate / header names upper-cased and normalisable methods respelled / lower-cased plus safelisted methods and response-header names added / every element doubled / reversed+upper-cased (all six in the lists, PNA and dispatch scenarios; one or two per byte-level scenario)", "thorough": scenarioBoundsThorough + "; all six twins in every scenario; plus C01's tree-level harnesses tree2 and tree3 (every ordered pair / pool triple of origin patterns against a symmetric oracle), which the quick tier runs under C01 only"}, Outside: scenarioOutside + "; permutations other than reversal and rotation for lists longer than 3; in the quick tier, order-dependence of the origin tree beyond the menus (decided by C01's tree harnesses)",
 		Explain: "the middleware built from the twin configuration must answer the same symbolic request identically (Config() values are deliberately not compared)"},
 	"C07": {ID: "C07", Harnesses: []HarnessSpec{
 		{Pkg: "cors", Entry: "zzH_C07_api", Reach: []string{"interfered", "config-checked", "served"}},
